@@ -385,6 +385,11 @@ func TraceCorr(c *Ctx, rec *TraceRec, errCount int) (what string, detail map[str
 	if len(m.ts) == 0 {
 		return "", nil, nil
 	}
+	if len(m.ts) > 400 {
+		// the machine's step function rebuilds its tables on every action (it is written for proofs, not for speed):
+		// replaying thousands of tasks takes minutes. Larger executions are not replayed.
+		return "", map[string]interface{}{"inconclusive": true, "too_large": len(m.ts)}, nil
+	}
 	capacity := traceCapacity(c)
 	tried, firstWhat := 0, ""
 	var firstDetail map[string]interface{}
